@@ -92,7 +92,8 @@ MinOf(S) == CHOOSE x \in S : \A y \in S : x <= y
 WaitBad(e) ==
     IF e.err # "" THEN "ok"
     ELSE IF e.ret < e.req THEN "C16_WaitRevision"
-    ELSE IF \E k \in DOMAIN urev : urev[k].rev <= e.req /\ (k \notin DOMAIN call \/ call[k].maxrev < urev[k].rev)
+    \* (eff: the revision under which the change is visible to the reconciler, see Step)
+    ELSE IF \E k \in DOMAIN urev : urev[k].eff <= e.req /\ (k \notin DOMAIN call \/ call[k].maxrev < urev[k].rev)
          THEN "C16_WaitAttempted"
     ELSE IF ~e.q THEN "ok"
     ELSE IF (e.lw = 0) # (Failed = {}) THEN "C16_LowWatermarkZero"
@@ -122,14 +123,15 @@ Step(e) ==
     /\ tbl' = IF e.op = "commit" THEN ApplyChanges(tbl, e.changes) ELSE tbl
     /\ hist' = IF e.op = "commit" THEN Put(hist, e.rev, Contents(ApplyChanges(tbl, e.changes))) ELSE hist
     /\ urev' = IF e.op # "user" THEN urev
-               ELSE IF e.kind = "delete" THEN (IF e.found THEN Put(urev, e.k, [rev |-> e.rev, del |-> TRUE]) ELSE urev)
+               ELSE IF e.kind = "delete" THEN (IF e.found THEN Put(urev, e.k, [rev |-> e.rev, eff |-> e.rev, del |-> TRUE]) ELSE urev)
                \* a status-only write of another reconciler keeps content and pending id: nothing new to attempt,
-               \* but a change that was not attempted yet now carries the new revision (the table keeps only the
-               \* latest revision of an object, so "every change up to rev" cannot include it before)
+               \* but a change that was not attempted yet is from now on visible under the new revision only (the
+               \* table keeps the latest revision of an object, so "every change up to rev" cannot include it
+               \* below that); an attempt made from an older snapshot with the original revision still counts
                ELSE IF e.kind = "status2"
                     THEN (IF e.k \in DOMAIN urev /\ ~urev[e.k].del /\ (e.k \notin DOMAIN call \/ call[e.k].maxrev < urev[e.k].rev)
-                          THEN Put(urev, e.k, [rev |-> e.rev, del |-> FALSE]) ELSE urev)
-               ELSE Put(urev, e.k, [rev |-> e.rev, del |-> FALSE])
+                          THEN Put(urev, e.k, [urev[e.k] EXCEPT !.eff = e.rev]) ELSE urev)
+               ELSE Put(urev, e.k, [rev |-> e.rev, eff |-> e.rev, del |-> FALSE])
     \* (a status-only write of another reconciler is no change of the object: it neither asks for a new attempt
     \* nor restarts the retry sequence)
     /\ changed' = IF e.op = "user" /\ e.kind # "status2" /\ (e.kind \in {"upsert", "reinsert"} \/ e.found) THEN changed \cup {e.k}
